@@ -754,7 +754,20 @@ func vC17RunFake(c *vC17Case) (obs *vC17Obs, term string, panicked interface{}) 
 			}
 		case "shutdown":
 			if cl != nil {
+				// Shutdown with LeaveOnShutdown first removes this peer from the peerset and only then stops the consensus component;
+				// a tick of its own watcher in between blocks on shutdownLock while Shutdown waits for the watcher (a deadlock of the
+				// product, reproduced by c17_probe_test.go, outside this property): the watcher does not get to see that window here
+				cons.mu.Lock()
+				was := cons.frozen[op.At]
+				if c.Peers[op.At].Leave && !was {
+					cons.frozen[op.At] = true
+					cons.stale[op.At] = append([]int{}, cons.peers...)
+				}
+				cons.mu.Unlock()
 				operr = cl.Shutdown(bg)
+				cons.mu.Lock()
+				cons.frozen[op.At] = was
+				cons.mu.Unlock()
 			}
 		case "freeze":
 			cons.mu.Lock()
